@@ -671,6 +671,115 @@ theorem transformPoint_w_zero (t : Transform) (v : Vec) (hv : v.isI32)
   have c1 : ¬ ((0 : Int) = fixed1) := by unfold fixed1; omega
   simp only [transformPoint, transformPoint3116, hA, hdi, hdf, Bool.not_true, Bool.false_eq_true, if_false, c1, and_self, and_true, if_true]
 
+/-! ### the predicates: pixman_transform_is_identity / is_scale / is_int_translate / is_inverse -/
+
+/-- `within_epsilon (a, b, eps)` when the `int32_t` difference does not wrap and is not `INT32_MIN`: `|a - b| ≤ eps` -/
+theorem withinEpsilon_spec (a b eps : Int) (hd : -2147483648 < a - b ∧ a - b ≤ 2147483647) :
+    withinEpsilon a b eps = true ↔ abs (a - b) ≤ eps := by
+  unfold withinEpsilon abs
+  have e1 : wrapS32 (a - b) = a - b := wrapS32_of_range _ (by omega)
+  simp only [e1]
+  split
+  · next h => have e2 : wrapS32 (-(a - b)) = -(a - b) := wrapS32_of_range _ (by omega)
+              simp only [e2, decide_eq_true_eq]
+  · simp only [decide_eq_true_eq]
+
+/-- the quirk of the compiled code: a difference of exactly `INT32_MIN` negates to itself and passes every `eps ≥ INT32_MIN` -/
+theorem withinEpsilon_int32min (a b eps : Int) (hd : a - b = -2147483648) (he : -2147483648 ≤ eps) :
+    withinEpsilon a b eps = true := by
+  unfold withinEpsilon
+  rw [hd]
+  have : wrapS32 (-2147483648) = -2147483648 := by decide
+  simp only [this]
+  have : wrapS32 (- -2147483648) = -2147483648 := by decide
+  simp only [show ((-2147483648 : Int) < 0) from by decide, if_true, this, decide_eq_true_eq]
+  exact he
+
+/-- "is (about) zero", "is (about) one", "differ by at most two units" for entries other than `INT32_MIN` -/
+theorem isZero_iff (a : Int) (ha : -2147483648 < a ∧ a ≤ 2147483647) : isZero a = true ↔ -2 ≤ a ∧ a ≤ 2 := by
+  unfold isZero; rw [withinEpsilon_spec a 0 2 (by omega)]; unfold abs; split <;> omega
+theorem isOne_iff (a : Int) (ha : -2147418112 < a ∧ a ≤ 2147483647) : isOne a = true ↔ 65534 ≤ a ∧ a ≤ 65538 := by
+  unfold isOne fixed1; rw [withinEpsilon_spec a 65536 2 (by omega)]; unfold abs; split <;> omega
+theorem isSame_iff (a b : Int) (hd : -2147483648 < a - b ∧ a - b ≤ 2147483647) : isSame a b = true ↔ abs (a - b) ≤ 2 := by
+  unfold isSame; exact withinEpsilon_spec a b 2 hd
+/-- `IS_INT`: the fraction `a & 0xffff` is 0, 1 or 2 (so 1.0 - 1/65536 is NOT an integer for this test, 1.0 + 2/65536 is) -/
+theorem isInt_iff (a : Int) : isInt a = true ↔ a % 65536 ≤ 2 := by
+  unfold isInt
+  rw [isZero_iff _ (by omega)]
+  omega
+
+/-- `pixman_transform_is_inverse (a, b)` is literally "the product as `pixman_transform_multiply` computes it exists
+    and passes `pixman_transform_is_identity`" -/
+theorem isInverse_iff (a b : Transform) :
+    isInverse a b = true ↔ ∃ t, multiply a b = some t ∧ isIdentity t = true := by
+  unfold isInverse
+  cases multiply a b with
+  | none => simp
+  | some t => simp
+
+/-- ... i.e., with `multiply_spec`: the per-term rounded product is representable and is an "identity" -/
+theorem isInverse_spec (a b : Transform) :
+    isInverse a b = true ↔ (productSpec a b).Rep ∧ isIdentity (productSpec a b) = true := by
+  rw [isInverse_iff]
+  have ms := multiply_spec a b
+  by_cases hr : (productSpec a b).Rep
+  · rw [ms.1 hr]; simp [hr]
+  · rw [ms.2 hr]; simp [hr]
+
+/-- `pixman_transform_is_identity` for entries away from `INT32_MIN`: the three diagonal entries agree within two
+    units and are not (about) zero, the six others are within two units of zero.  (Any uniform diagonal passes:
+    the test is projective, `2.0·I` "is the identity".) -/
+theorem isIdentity_spec (t : Transform)
+    (hn : ∀ x ∈ [t.m00, t.m01, t.m02, t.m10, t.m12, t.m20, t.m21], -2147483648 < x ∧ x ≤ 2147483647)
+    (h1 : -2147483648 < t.m00 - t.m11 ∧ t.m00 - t.m11 ≤ 2147483647)
+    (h2 : -2147483648 < t.m00 - t.m22 ∧ t.m00 - t.m22 ≤ 2147483647) :
+    isIdentity t = true ↔
+      abs (t.m00 - t.m11) ≤ 2 ∧ abs (t.m00 - t.m22) ≤ 2 ∧ ¬ (-2 ≤ t.m00 ∧ t.m00 ≤ 2) ∧
+      (-2 ≤ t.m01 ∧ t.m01 ≤ 2) ∧ (-2 ≤ t.m02 ∧ t.m02 ≤ 2) ∧ (-2 ≤ t.m10 ∧ t.m10 ≤ 2) ∧ (-2 ≤ t.m12 ∧ t.m12 ≤ 2) ∧
+      (-2 ≤ t.m20 ∧ t.m20 ≤ 2) ∧ (-2 ≤ t.m21 ∧ t.m21 ≤ 2) := by
+  simp only [List.mem_cons, List.mem_nil_iff, or_false, forall_eq_or_imp, forall_eq] at hn
+  obtain ⟨a0, a1, a2, a3, a4, a5, a6⟩ := hn
+  unfold isIdentity
+  simp only [Bool.and_eq_true, Bool.not_eq_true', ← Bool.not_eq_true, isSame_iff _ _ h1, isSame_iff _ _ h2,
+    isZero_iff _ a0, isZero_iff _ a1, isZero_iff _ a2, isZero_iff _ a3, isZero_iff _ a4, isZero_iff _ a5, isZero_iff _ a6, and_assoc]
+
+/-- `pixman_transform_is_scale` for entries other than `INT32_MIN`: diagonal not (about) zero, the rest (about) zero -/
+theorem isScale_spec (t : Transform)
+    (hn : ∀ x ∈ [t.m00, t.m01, t.m02, t.m10, t.m11, t.m12, t.m20, t.m21, t.m22], -2147483648 < x ∧ x ≤ 2147483647) :
+    isScale t = true ↔
+      ¬ (-2 ≤ t.m00 ∧ t.m00 ≤ 2) ∧ (-2 ≤ t.m01 ∧ t.m01 ≤ 2) ∧ (-2 ≤ t.m02 ∧ t.m02 ≤ 2) ∧ (-2 ≤ t.m10 ∧ t.m10 ≤ 2) ∧
+      ¬ (-2 ≤ t.m11 ∧ t.m11 ≤ 2) ∧ (-2 ≤ t.m12 ∧ t.m12 ≤ 2) ∧ (-2 ≤ t.m20 ∧ t.m20 ≤ 2) ∧ (-2 ≤ t.m21 ∧ t.m21 ≤ 2) ∧
+      ¬ (-2 ≤ t.m22 ∧ t.m22 ≤ 2) := by
+  simp only [List.mem_cons, List.mem_nil_iff, or_false, forall_eq_or_imp, forall_eq] at hn
+  obtain ⟨a0, a1, a2, a3, a4, a5, a6, a7, a8⟩ := hn
+  unfold isScale
+  simp only [Bool.and_eq_true, Bool.not_eq_true', ← Bool.not_eq_true, isZero_iff _ a0, isZero_iff _ a1, isZero_iff _ a2,
+    isZero_iff _ a3, isZero_iff _ a4, isZero_iff _ a5, isZero_iff _ a6, isZero_iff _ a7, isZero_iff _ a8, and_assoc]
+
+/-- `pixman_transform_is_int_translate` for `int32_t` entries (no entry is near a wrap: the compared constants are
+    0 and 1.0): unit diagonal and zero off-diagonal within two units, translation with fraction 0, 1 or 2 -/
+theorem isIntTranslate_spec (t : Transform)
+    (hn : ∀ x ∈ [t.m00, t.m01, t.m10, t.m11, t.m20, t.m21, t.m22], -2147418112 < x ∧ x ≤ 2147483647) :
+    isIntTranslate t = true ↔
+      (65534 ≤ t.m00 ∧ t.m00 ≤ 65538) ∧ (-2 ≤ t.m01 ∧ t.m01 ≤ 2) ∧ t.m02 % 65536 ≤ 2 ∧ (-2 ≤ t.m10 ∧ t.m10 ≤ 2) ∧
+      (65534 ≤ t.m11 ∧ t.m11 ≤ 65538) ∧ t.m12 % 65536 ≤ 2 ∧ (-2 ≤ t.m20 ∧ t.m20 ≤ 2) ∧ (-2 ≤ t.m21 ∧ t.m21 ≤ 2) ∧
+      (65534 ≤ t.m22 ∧ t.m22 ≤ 65538) := by
+  simp only [List.mem_cons, List.mem_nil_iff, or_false, forall_eq_or_imp, forall_eq] at hn
+  obtain ⟨a0, a1, a3, a4, a6, a7, a8⟩ := hn
+  unfold isIntTranslate
+  simp only [Bool.and_eq_true, isOne_iff _ a0, isOne_iff _ a4, isOne_iff _ a8, isZero_iff _ (by omega : -2147483648 < t.m01 ∧ t.m01 ≤ 2147483647),
+    isZero_iff _ (by omega : -2147483648 < t.m10 ∧ t.m10 ≤ 2147483647), isZero_iff _ (by omega : -2147483648 < t.m20 ∧ t.m20 ≤ 2147483647),
+    isZero_iff _ (by omega : -2147483648 < t.m21 ∧ t.m21 ≤ 2147483647), isInt_iff, and_assoc]
+
+example : isScale ⟨131072, 1, 0, -2, -3, 0, 0, 0, 65536⟩ = true := by decide
+example : isIntTranslate ⟨65537, 0, 196610, 0, 65536, -65536, 0, 0, 65536⟩ = true := by decide
+
+example : isIdentity ⟨131072, 1, 0, -2, 131073, 0, 0, 0, 131070⟩ = true := by decide
+example : isIdentity ⟨65536, 3, 0, 0, 65536, 0, 0, 0, 65536⟩ = false := by decide
+example : isZero (-2147483648) = true := by decide   -- the INT32_MIN quirk
+example : isInverse ⟨131072, 0, 0, 0, 32768, 0, 0, 0, 65536⟩ ⟨32768, 0, 0, 0, 131072, 0, 0, 0, 65536⟩ = true := by decide
+example : isInt 131074 = true ∧ isInt 131071 = false := by decide
+
 /-! ### non-vacuity: every hypothesis set above is satisfiable by a non-trivial value -/
 
 -- transformPoint_affine / transformPoint3116_affine: rotation-like affine matrix with translation, w = 1.0
